@@ -151,6 +151,9 @@ func checkCmd(argv []string) int {
 			undecided = append(undecided, fmt.Sprintf("not-verifiable %s.%s: %s", shortPkg(ct.Pkg), ct.Target, fr.Err))
 			continue
 		}
+		for _, d := range fr.VC.droppedInvs {
+			undecided = append(undecided, "contract-mismatch "+d)
+		}
 		frs = append(frs, fr)
 		funcs = append(funcs, shortPkg(ct.Pkg)+"."+ct.Target)
 	}
